@@ -25,7 +25,7 @@ Nums == {[k |-> "numtables", v |-> v] : v \in {"0", "1", "count+1", "max"}}
 (* every table, and 'dupe' reference graphs among the first bitmap glyphs of an 'sbix' strike          *)
 GlyphBytes == {[k |-> "glyphbyte", gi |-> g, idx |-> i, v |-> v] : g \in 1..10, i \in 0..39, v \in {"0", "5", "mid8", "max8"}}
 SpreadBytes == {[k |-> "setbyte", ti |-> t, frac |-> f, off |-> o, v |-> v] : t \in 1..NT, f \in 1..7, o \in 0..3, v \in {"0", "max8"}}
-SbixDupes == {[k |-> "sbixdupe", t1 |-> a, t2 |-> b, t3 |-> c] : a \in 0..3, b \in 0..3, c \in 0..3}      \* glyph i becomes a dupe of t_i (0 = unchanged)
+SbixDupes == {[k |-> "sbixdupe", t1 |-> a, t2 |-> b, t3 |-> c] : a \in 0..3, b \in 0..3, c \in 0..3}      \* glyph i of the first sbix strike becomes a "dupe" of glyph t_i (0 = unchanged); the harness first re-cuts the data of glyphs 1..3 into 10-byte records
 Single == Truncs \cup SetDirs(1..NT) \cup SetWords \cup Swaps \cup Nums \cup GlyphBytes \cup SpreadBytes \cup SbixDupes
 
 Init == plan = << >> /\ stage = 0
